@@ -9,6 +9,7 @@ import numpy as np
 from .. import install, refs, gen, reach
 from ..install import ctx as _ctx
 
+REPO_TESTS_UNDER_CONTRACTS = True
 RULE = ('cases = (function, len(x), len(y)|auto, real/complex mix, data kind, maxlags, norm | '
         'data-matrix method, m); exhaustive over small lengths, sampled beyond; a case is '
         'non-trivial when N >= 2 and (maxlags >= 1 or m >= 1); distinct = distinct descriptor')
